@@ -51,4 +51,4 @@ Definition zseq (lo n : Z) : list Z := zseq_nat lo (Z.to_nat n).
 
 Definition int_min : Z := -2147483648.
 Definition int_max : Z := 2147483647.
-Definition in_int (x : Z) : bool := (int_min <=? x) && (x <=? int_max).
+Definition fits_int (x : Z) : bool := (int_min <=? x) && (x <=? int_max).
